@@ -1,6 +1,7 @@
 import SctpVerif.Proofs.NetSys.PRTake
 import SctpVerif.Proofs.NetSys.PRLost
 import SctpVerif.Proofs.NetSys.PRLostDec
+import SctpVerif.Proofs.NetSys.PRLostGood
 import SctpVerif.Proofs.NetSys.Proj
 /-!
 # C07 — the composition with FORWARD-TSN: sender half + adversarial network + receiver half (`NetSysPR`)
@@ -264,6 +265,45 @@ example : TsnFifo (moved PX (init PX) opsX) (written (init PX).snd (NetSys.sndOp
 -- test: the ghost `pushed` — TSN 2^32−1 (the partially received fragment), 0, 1, and the late copy of 2^32−2 is NOT pushed (below the point)
 set_option maxRecDepth 1000000 in
 example : pushed PX (init PX) opsX = [4294967295#32, 0#32, 1#32] := by decide
+
+/-- the universe of a NetSysPR run: per stream the messages the application wrote on it, cut as `packetize` cuts them, at the
+TSN offsets the run assigned (`senderD` of `Proofs/NetSys/UnivD.lean`) -/
+def streamOf (P : Params) (ops : List Op) (si : BitVec 16) : Reasm.Sender :=
+  NetSys.senderD P (accepted (init P).snd (NetSys.sndOps P (init P).snd ops)) (SenderTsn.moved (init P).snd (NetSys.sndOps P (init P).snd ops)) si
+
+/-- **NetSysPR, ordered DATA — the universe link DERIVED; one stated premise left (`hfw`).** For every run of NetSysPR over
+ordered streams of ANY reliability policy (`OrdOnly`: no unordered stream, no reset — `NoReset` included), DATA / FORWARD-TSN
+(no interleaving), with `RunOk`, a message-contiguous per-stream FIFO selection (`SelContig`, what C17 proves of the pending
+queue), fewer than 2^31 chunks written, no entry limit, fewer than 2^15 messages written on the stream: IF every FORWARD-TSN
+the receiver takes satisfies the honest-sender premise in the receiver's vocabulary (`hfw`: `FwdOk` on the receiver
+projection, `K` = any labelling) THEN the reads on the stream are `D.map message` for a strictly increasing `D` — a
+subsequence of `writesOn P si`, the application's own writes — and every message with `K k = false` all of whose fragments
+were handed over has been read or sits complete in the queue. The universe (`streamOf`: the run's writes, `S.msgs.map out =
+writesOn`), `GoodChunkS` for every delivered item and the TSN injectivity of moved fragments are now theorems
+(`Proofs/NetSys/PRUniv*.lean`, `PRLostGood.lean`). -/
+theorem C07_netsys_nothing_lost_fwdok_partial (P : Params) (ops : List Op) (si : BitVec 16) (K : Nat → Bool)
+    (hil : P.cfg.useInterleaving = false) (hifw : P.cfg.useIForwardTSN = false) (hme : P.maxEntries = 0)
+    (hok : RunOk P ops) (hord : NetSys.OrdOnly ops = true) (hsel : NetSys.SelContig P ops = true)
+    (hN : NetSys.chunksWritten P ops < 2^31) (hlen : (writesOn P si (init P) ops).length < 2^15)
+    (hfw : Receiver.FwdOk (streamOf P ops si) K (init P).rcv [] (rcvOps P (init P) ops)) :
+    (streamOf P ops si).msgs.map Reasm.Msg.out = writesOn P si (init P) ops ∧
+    ∃ D : List Nat,
+      readsOn P si (init P) ops = D.map (fun k => Reasm.Msg.out ((streamOf P ops si).msg k)) ∧
+      D.Pairwise (· < ·) ∧ (∀ k ∈ D, k < (writesOn P si (init P) ops).length) ∧
+      (readsOn P si (init P) ops).Sublist (writesOn P si (init P) ops) ∧
+      (∀ k, k < (writesOn P si (init P) ops).length → K k = false →
+        (∀ i, i < (streamOf P ops si).nf k → ((streamOf P ops si).dataFrag k i).tsn ∈ pushed P (init P) ops) →
+        k ∈ D ∨ (streamOf P ops si).concSet (k, List.range ((streamOf P ops si).nf k)) ∈
+          (Receiver.qOf (run P (init P) ops).rcv si).ordered) := by
+  have hu := NetSys.ufacts P ops hil hord hsel hN
+  have hw := univ_writes hu si
+  have hl : (streamOf P ops si).msgs.length = (writesOn P si (init P) ops).length := by
+    have := congrArg List.length hw
+    simp only [List.length_map] at this
+    exact this
+  obtain ⟨D, d1, d2, d3, d4, d5⟩ := C07_netsys_nothing_lost_partial P ops hme (univOf hu si) rfl (streamOf P ops si)
+    (univOf_mem hu si) (by rw [hl]; exact hlen) K (hgood_of_run P ops hifw hok hu si) hfw
+  refine ⟨hw, D, d1, d2, fun k hk => by rw [← hl]; exact d3 k hk, by rw [← hw]; exact d4, fun k hk => d5 k (by rw [hl]; exact hk)⟩
 
 /-! ### non-vacuity of the two theorems above: concrete runs that MEET ALL their hypotheses
 
